@@ -9,7 +9,7 @@ RULE = ("seeded random continua up to 2x9, 3x9, 4x5, 5x3 units x pooled dissimil
         "returned soft alignment is checked to be a well-formed cover (M-COVER) and its disorder compared with the "
         "unpruned exact minimum cover (bitmask DP <= 14 units, HiGHS MILP with A x >= 1) and with the best partition "
         "of the same continuum; thorough tier adds the complete '2 annotators x <= 2 units' and '3 annotators x <= 2 "
-        "units' grids; 10 % of the random cases are editing sessions (compute, edit the same continuum object, compute again); "
+        "units' grids; a corpus of continua whose cover programme has an integrality gap (mined off-line, judged at run time); 10 % of the random cases are editing sessions (compute, edit the same continuum object, compute again); "
         "non-trivial = >= 2 units and >= 2 non-empty annotators; distinct by SHA-1 of the case")
 ASSUMPTIONS = [
     "pair costs come from the compiled d_mat on arrays built by the harness; enumeration, pair mean and optimisation "
@@ -113,6 +113,12 @@ def run(ctx):
         case = {"continuum": cs0, "dissim": {"kind": "positional", "delta": 0.5}, "backend": "cbc",
                 "session": ac.gen_edit_ops(ctx.rng, cs0, cases.LABELS_SMALL, 3)}
         ctx.begin_case(case)
+        check_case(ctx, case)
+    # continua whose cover programme has an integrality gap (the solvers have to branch): _align_common.hard_mip_cases
+    for i, hc in enumerate(ac.hard_mip_cases(ctx, "cover", limit=ctx.scale(15, None), min_gap=1e-3)):
+        case = dict(hc, backend="cbc" if i % 2 == 0 else "glpk", want="auto")
+        ctx.begin_case(case)
+        ctx.observe("family", "integrality-gap")
         check_case(ctx, case)
     for _ in range(ctx.scale(220, 5000)):
         if ctx.out_of_time():
